@@ -12,7 +12,18 @@ from ..core import zl, zs, cbool, copt, clist, cz
 
 IMPORTS = 'From AV Require Import Base.Prelude Model.HostTrust Corr.C04Corr.'
 T0 = 1_700_000_000                      # the harness' clock; certificate windows are placed around it
-FORMS = ['bytes', 'bytes', 'path', 'paths', 'obj', 'callable', 'tuple3', 'tuple7']
+FORMS = ['bytes', 'bytes', 'path', 'paths', 'obj', 'callable', 'tuple3', 'tuple7', 'empty', 'unset', 'default_file']
+# 'empty' = known_hosts=b'', 'unset' = known_hosts not given: the client then reads ~/.ssh/known_hosts if it is a
+# readable file and otherwise trusts NOTHING (it must not switch checking off); 'default_file' = not given and the
+# generated text is that file.  HOME points into the work directory for the whole run.
+EMPTY_FORMS = ('empty', 'unset')
+
+
+def use_home(workdir):
+    home = os.path.join(workdir, 'home')
+    os.makedirs(os.path.join(home, '.ssh'), exist_ok=True)
+    os.environ['HOME'] = home
+    return os.path.join(home, '.ssh', 'known_hosts')
 TY_TRUST = 'option (list Z * list Z * list Z)'
 
 
@@ -67,6 +78,17 @@ def directed_configs():
     add('mem', [E('', '10.0.0.0/24', 0), E('', '10.0.0.0/8,!10.0.0.2', 1), E('cert-authority', '10.0.1.0/24', 4)])
     add('mem', [E('', P.hashed_field('mem', b'c04-salt-1'), 0), E('', P.hashed_field('bar', b'c04-salt-2'), 1),
                 E('cert-authority', P.hashed_field('10.0.0.2', b'c04-salt-3'), 4)])
+    # regression (seed 1 false alarm after /repo 9f68483): in the [name]:port pass an address/CIDR pattern matches
+    # nothing, so `*,!10.0.0.0/24 K0` lists K0 for FOO.example.com:2222 although the address is in that network
+    add('FOO.example.com', [E('cert-authority', '*', 0), E('', '[FOO.example.com]:2222', 2), E('', '*,!10.0.0.0/24', 0)],
+        addr='10.0.0.20', port=2222)
+    add('mem', [E('', '10.0.0.0/24', 0), E('revoked', '10.0.0.2', 1), E('', '[mem]:2222,!10.0.0.0/8', 1)], port=2222)
+    # a negated component in a field without * ? | / (still a pattern line); empty / missing known_hosts
+    add('mem', [E('', 'mem,!10.0.0.2', 0), E('', 'mem,!10.0.0.20', 1), E('cert-authority', 'mem,!mem', 4)])
+    add('mem', [E('', '[mem]:2222,![10.0.0.2]:2222', 0), E('', '[mem]:2222,!10.0.0.2', 1)], port=2222)
+    add('mem', [E('', 'mem', 0), E('cert-authority', 'mem', 4)], form='empty')
+    add('mem', [E('', 'mem', 0), E('cert-authority', 'mem', 4)], form='unset')
+    add('mem', [E('', 'mem', 0), E('cert-authority', 'mem', 4), E('revoked', '*', 1)], form='default_file')
     # alias, callbacks, no checking, direct lists
     add('bar', [E('', 'mem', 0), E('', 'bar', 1), E('cert-authority', 'mem', 4)], alias='mem')
     add('mem', [E('', 'bar', 0), E('revoked', 'mem', 1)], cb_key=True, cb_ca=True)
@@ -82,7 +104,16 @@ def known_hosts_arg(pool, cfg, workdir, tag):
     form = cfg['form']
     if form == 'none':
         return None
+    default = use_home(workdir)
+    if os.path.exists(default):
+        os.remove(default)
+    if form in EMPTY_FORMS:
+        return b'' if form == 'empty' else ()
     text = '# c04\n' + P.render(pool, cfg['lines'])
+    if form == 'default_file':
+        with open(default, 'w') as f:
+            f.write(text)
+        return ()
     name = cfg['alias'] or cfg['host']
     if form == 'bytes':
         return text.encode()
@@ -113,6 +144,10 @@ def real_lookup(pool, kh, cfg):
     import asyncssh
     if kh is None:
         return None
+    if cfg['form'] in EMPTY_FORMS:
+        kh = b''                                        # documented: no default file -> an empty trust set
+    elif cfg['form'] == 'default_file':
+        kh = os.path.join(os.environ['HOME'], '.ssh', 'known_hosts')
     res = asyncssh.match_known_hosts(kh, cfg['alias'] or cfg['host'], cfg['addr'],
                                      None if cfg['port'] == 22 else cfg['port'])
     # the client turns the three lists into sets; duplicates (several matching lines) carry no information
@@ -122,6 +157,8 @@ def real_lookup(pool, kh, cfg):
 def ref_trust(cfg):
     if cfg['form'] == 'none':
         return None
+    if cfg['form'] in EMPTY_FORMS:
+        return [], [], []
     return P.ref_lookup(cfg['lines'], cfg['alias'] or cfg['host'], cfg['addr'], None if cfg['port'] == 22 else cfg['port'])
 
 
@@ -636,7 +673,7 @@ def run(ctx):
         'Configurations = generated known_hosts (1-7 lines over plain, [host]:port, wildcard, negated, CIDR and hashed host '
         'fields aimed at or near the queried host/address/port; markers none/@cert-authority/@revoked; comments, blank and '
         'unparsable lines) handed to the real client as bytes, file name, list of file names, SSHKnownHosts object, callable, '
-        '3-tuple, 7-tuple or None, plus host_key_alias and validate_host_*_key callbacks; 19 fixed configurations (hostile names '
+        '3-tuple, 7-tuple or None, plus host_key_alias and validate_host_*_key callbacks; 26 fixed configurations (hostile names '
         'against wildcard lines, listed+revoked, revoked CA, revoked subject key, port fallback, CIDR, hashed) run first.  The '
         "model's input is the result of the real match_known_hosts for the client's (alias or host, peer address, port).  "
         'Presented = each of 8 pool keys, certificates (4 CAs x subjects, type 0/1/2/3, window edges incl. fractional clock '
